@@ -27,28 +27,57 @@ pub struct Scn {
     pub files: Vec<FileSpec>,
     /// "file", "dir", "glob", "files-from"
     pub form: String,
+    /// configured encoding of the invocation: "utf-8" or "windows-1252" (files without BOM)
+    #[serde(default)]
+    pub encoding: String,
+}
+
+fn enc_of(scn_encoding: &str) -> &'static encoding_rs::Encoding {
+    if scn_encoding == "windows-1252" {
+        encoding_rs::WINDOWS_1252
+    } else {
+        encoding_rs::UTF_8
+    }
+}
+
+fn encode_text(enc: &'static encoding_rs::Encoding, bom: bool, text: &str) -> Vec<u8> {
+    if bom || enc == encoding_rs::UTF_8 {
+        text.as_bytes().to_vec()
+    } else {
+        enc.encode(text).0.into_owned()
+    }
 }
 
 const UTF8_BOM: &[u8] = &[0xEF, 0xBB, 0xBF];
 
+#[allow(dead_code)]
 fn bytes_of(f: &FileSpec) -> Vec<u8> {
+    bytes_of_enc(f, encoding_rs::UTF_8)
+}
+
+fn bytes_of_enc(f: &FileSpec, enc: &'static encoding_rs::Encoding) -> Vec<u8> {
     let mut v = vec![];
     if f.bom {
         v.extend_from_slice(UTF8_BOM);
     }
-    v.extend_from_slice(f.text.as_bytes());
+    v.extend_from_slice(&encode_text(enc, f.bom, &f.text));
     if f.kind == "badutf8" {
         v.extend_from_slice(&[b'/', b'/', 0xFF, 0xFE, b'\n']);
     }
     v
 }
 
+#[allow(dead_code)]
 fn expected(f: &FileSpec, cfg: &Cfg) -> Vec<u8> {
+    expected_enc(f, cfg, encoding_rs::UTF_8)
+}
+
+fn expected_enc(f: &FileSpec, cfg: &Cfg, enc: &'static encoding_rs::Encoding) -> Vec<u8> {
     let mut v = vec![];
     if f.bom {
         v.extend_from_slice(UTF8_BOM);
     }
-    v.extend_from_slice(format_with(cfg, &f.text).as_bytes());
+    v.extend_from_slice(&encode_text(enc, f.bom, &format_with(cfg, &f.text)));
     v
 }
 
@@ -118,7 +147,7 @@ impl Prop for C16Prop {
     }
     fn assumptions(&self) -> Vec<String> {
         vec![
-            "UTF-8 only (C17 covers encodings), so 'text equal' and 'bytes equal' coincide".into(),
+            "UTF-8 (with/without BOM) and, for a quarter of the scenarios, windows-1252 configured with -Cencoding (single-byte, injective on the generated texts), so 'text equal' and 'bytes equal' coincide; C17 covers the other encodings".into(),
             "the scratch root has no pasfmt.toml in any ancestor (verified at start)".into(),
         ]
     }
@@ -161,8 +190,18 @@ impl Prop for C16Prop {
                 let f = format_with(&cfg, &main_text);
                 if cfg.crlf { f.replace("\r\n", "\n") } else { f.replace('\n', "\r\n") }
             }
+            // exactly the formatted result already
+            2 => format_with(&cfg, &main_text),
             _ => main_text,
         };
+        // a configured legacy encoding for the whole invocation, when every text is representable
+        let mut encoding = "utf-8".to_string();
+        let mut main_text = main_text;
+        if t.chance(1, 4) {
+            // make sure a non-ASCII character precedes the first change
+            main_text = format!("// caf\u{e9} \u{a9} \u{fc}ber\n{main_text}");
+            encoding = "windows-1252".to_string();
+        }
         let mut files = vec![FileSpec {
             path: format!("src/main.{}", *t.pick(&["pas", "pas", "dpr", "dpk", "PAS"])),
             text: main_text,
@@ -201,8 +240,25 @@ impl Prop for C16Prop {
         files.push(FileSpec { path: "src/note.txt".into(), text: "x   :=   1;\n".into(), bom: false, kind: "good".into() });
         files.push(FileSpec { path: "src/a.pas.x".into(), text: "y   :=   2;\n".into(), bom: false, kind: "good".into() });
         let form = (*t.pick(&["file", "dir", "glob", "files-from"])).to_string();
+        if encoding != "utf-8" {
+            // every byte sequence decodes in a single-byte code page: no undecodable file there
+            files.retain(|f| f.kind != "badutf8");
+            let enc = enc_of(&encoding);
+            let ok = files.iter().all(|f| {
+                f.bom || {
+                    let (b, _, bad) = enc.encode(&f.text);
+                    !bad && enc.decode_without_bom_handling(&b).0 == f.text && {
+                        let out = format_with(&cfg, &f.text);
+                        !enc.encode(&out).2
+                    }
+                }
+            });
+            if !ok {
+                encoding = "utf-8".to_string();
+            }
+        }
         let mut c = Case::text("scn", String::new(), cfg);
-        c.extra = serde_json::to_value(Scn { files, form }).unwrap();
+        c.extra = serde_json::to_value(Scn { files, form, encoding }).unwrap();
         Some(c)
     }
     fn hang_limit(&self, _case: &Case) -> Option<u64> {
@@ -214,7 +270,13 @@ impl Prop for C16Prop {
         };
         cli::check_no_config_above();
         let cfg = &case.cfg;
-        let cfg_args = cfg.to_cli();
+        let mut cfg_args = cfg.to_cli();
+        let enc = enc_of(&scn.encoding);
+        if enc != encoding_rs::UTF_8 {
+            cfg_args.push(format!("-Cencoding={}", scn.encoding));
+        }
+        let bytes_of = |f: &FileSpec| bytes_of_enc(f, enc);
+        let expected = |f: &FileSpec, cfg: &Cfg| expected_enc(f, cfg, enc);
         let main = &scn.files[0];
         let fail = |clause: &str, msg: String| Outcome::Fail(Failure::new(clause, msg).fact(format!("form:{}", scn.form)));
 
